@@ -407,6 +407,16 @@ func (r *srvRun) account(f []byte) error {
 // is still registered for an earlier one is started by that one's Respond, which
 // may be before the receive loop has reached the recv.dispatch point.
 func (r *srvRun) batch(ms []*ref9p.Msg) error {
+	if r.c.Maxpend > 0 && len(ms) > 1 {
+		// class pend: the preparation is lock step, so that a server that admits
+		// only Maxpend requests at a time is first tried by the measured stream
+		for _, m := range ms {
+			if err := r.batch([]*ref9p.Msg{m}); err != nil {
+				return err
+			}
+		}
+		return nil
+	}
 	want := map[uint16]uint8{}
 	for _, m := range ms {
 		m.Tag = r.prepTag
